@@ -307,6 +307,31 @@ def run(C, R):
                             ok = False
                         else:
                             counter_users.add(fn['path'])
+                    # the overflow guard (as in Arc) may only fire for an astronomically large count; clone returns
+                    # on every other path
+                    from common import cmp_fact
+                    for path in cpaths:
+                        if path.exit != 'panic':
+                            continue
+                        ev = [e for e in path.events if e['k'] == 'call' and e['name'] == 'fetch_add']
+                        big = False
+                        for k in path.facts:
+                            if isinstance(k, tuple) and k and k[0] == 'bin' and k[1] in ('Gt', 'Ge', 'Lt', 'Le'):
+                                for c in (k[2], k[3]):
+                                    if c[0] == 'const' and isinstance(c[1], int) and c[1] >= 2 ** 31 - 1 and ev and \
+                                            (cmp_fact(E, path.facts, 'Gt', ev[0]['ret'], c) == 1 or
+                                             cmp_fact(E, path.facts, 'Ge', ev[0]['ret'], c) == 1):
+                                        big = True
+                        if big:
+                            R.ok('C11.R5', '%s|clone panics only beyond the refcount limit' % hname)
+                        else:
+                            R.fail('C11.R5', [hname, 'clone-panics-below-limit'],
+                                   '%s::clone can panic on a path that has not established that the handle count '
+                                   'exceeds the overflow limit [%s]' % (hname, path_cond(E, path)),
+                                   '%s:%s' % (fn['file'], fn['line']), {'trace': trace_summary(path)})
+                    if not any(p2.exit == 'return' for p2 in cpaths):
+                        R.fail('C11.R5', [hname, 'clone-never-returns'], '%s::clone has no returning path' % hname,
+                               '%s:%s' % (fn['file'], fn['line']))
                     if ok and adds:
                         R.ok('C11.R5', '%s|clone increments %s' % (hname, side))
                     else:
@@ -391,3 +416,48 @@ def run(C, R):
                     R.fail('C11.R5', [hname, 'last-handle-does-not-close'],
                            'a path on which the last %s is dropped (fetch_sub(1) == 1) does not close the channel' %
                            hname, '%s:%s' % (dropfn['file'], dropfn['line']), {'trace': trace_summary(path)})
+        # R7: the variant predicates of the status / error enums say what the variant is
+        n7 = 0
+        for enum, preds in (('channel::channel_future::CloseStatus',
+                             (('is_newly_closed', 'NewlyClosed'), ('is_already_closed', 'AlreadyClosed'))),
+                            ('channel::error::TryReceiveError', (('is_empty', 'Empty'), ('is_closed', 'Closed'))),
+                            ('channel::error::TrySendError', (('is_full', 'Full'), ('is_closed', 'Closed')))):
+            if enum not in F.adts:
+                raise CheckerError('anchor=%s missing' % enum)
+            for pname, variant in preds:
+                fn = F.one_fn(impl_adt=enum, name=pname)
+                seen = set()
+                for path in E.run(fn['path']):
+                    k = None
+                    for subj in (('param', 'self'), ('init', (('P', 'self'),))):
+                        k = k or E.variant_known(path.facts, subj)
+                    v = k[1] if k and k[0] == 'eq' else None
+                    n7 += 1
+                    if v is None or path.exit != 'return':
+                        R.fail('C11.R7', [fn['path'], 'shape'], '%s::%s() has a path that does not decide on the '
+                               'variant or panics' % (enum, pname), '%s:%s' % (fn['file'], fn['line']))
+                        continue
+                    seen.add(v)
+                    want = 1 if v == variant else 0
+                    if const_of(E, path.facts, path.ret) == want:
+                        R.ok('C11.R7', '%s::%s(%s) == %s' % (enum.split('::')[-1], pname, v, bool(want)))
+                    else:
+                        R.fail('C11.R7', [fn['path'], v, 'wrong-answer'],
+                               '%s::%s() returns %s for %s' % (enum.split('::')[-1], pname, fmt_val(path.ret), v),
+                               '%s:%s' % (fn['file'], fn['line']))
+                if seen != set(E.variants_of(enum)):
+                    R.fail('C11.R7', [fn['path'], 'variants-not-covered'], '%s::%s() does not cover %s' % (
+                        enum, pname, sorted(set(E.variants_of(enum)) - seen)), '%s:%s' % (fn['file'], fn['line']))
+        R.floor('C11.R7 predicate-cases[%s]' % cfg, n7, 12)
+        # the error types hand the rejected value back: into_inner returns the payload of either variant
+        fn = F.one_fn(impl_adt='channel::error::TrySendError', name='into_inner')
+        for path in E.run(fn['path']):
+            k = E.variant_known(path.facts, ('param', 'self'))
+            v = k[1] if k and k[0] == 'eq' else None
+            want = E.project(('param', 'self'), (('dc', v), '0')) if v else None
+            if path.exit == 'return' and v and path.ret == want:
+                R.ok('C11.R7', 'TrySendError::into_inner(%s) returns its payload' % v)
+            else:
+                R.fail('C11.R7', [fn['path'], str(v), 'payload-not-returned'],
+                       'TrySendError::into_inner() returns %s for %s' % (fmt_val(path.ret), v),
+                       '%s:%s' % (fn['file'], fn['line']))
